@@ -81,7 +81,8 @@ func main() {
 	for pn, pid := range pm {
 		pmt, err := psi.ReadPMT(reader, pid)
 		if err != nil {
-			panic(err)
+			fmt.Println(err)
+			return
 		}
 		pmts = append(pmts, pmt)
 		if *showPmt {
